@@ -57,7 +57,7 @@ def gen_cases(tier, seed):
     add(mol="lih", basis="sto-3g", mf="rhf", trial="rhf", wt="rhf", fci=True, sequence=[[0, False], [1, False], [1, True], [0, False]])
     add(mol="oh", basis="sto-3g", mf="rohf", trial="uhf", wt="uhf", fci=True, sequence=[[0, False], [1, False], [0, False]])
     if not q:
-        for rep in range(70):
+        for rep in range(220):
             mol = str(rng.choice(["h2", "h4", "h4ring", "lih", "oh"]))
             basis = str(rng.choice(["sto-3g", "sto-3g", "6-31g"])) if mol in ("h2", "h4", "lih") else "sto-3g"
             mf = "rohf" if mol == "oh" and rng.random() < 0.6 else ("uhf" if mol == "oh" or rng.random() < 0.3 else "rhf")
@@ -67,10 +67,12 @@ def gen_cases(tier, seed):
             if cc and mf == "rohf":
                 cc, trial = False, "uhf"
             wt = "uhf" if (mf != "rhf" or trial in ("uhf", "ucisd")) else str(rng.choice(["rhf", "uhf"]))
+            if trial == "cisd":
+                wt = "rhf"   # the hand-coded restricted CISD trial defines restricted-walker measurements only
             add(mol=mol, basis=basis, mf=mf, frozen=frozen, cc=cc, trial=trial, wt=wt, custom_basis=bool(rng.random() < 0.4 and not cc),
-                df=bool(rng.random() < 0.15 and not cc and not frozen), chol_cut=float(rng.choice([1e-5, 1e-6, 1e-7])),
+                df=bool(rng.random() < 0.15 and not cc and not frozen and mol in ("h2", "h4", "h4ring")),   # auxiliary bases for Li / O are not in the offline pyscf data chol_cut=float(rng.choice([1e-5, 1e-6, 1e-7])),
                 fci=bool(basis == "sto-3g" or mol == "h2"))
-        for rep in range(8):
+        for rep in range(30):
             add(mol="hubbard", lattice=str(rng.choice(["chain4", "grid2x2", "chain3"])), u=float(rng.choice([1.0, 4.0, 8.0])), mf=str(rng.choice(["rhf", "uhf"])),
                 nelec=[2, 2] if rng.random() < 0.5 else [2, 1], trial="uhf", wt="uhf", chol_cut=1e-8, fci=True)
     return cases
@@ -142,7 +144,11 @@ def run_case(case):
     rng = np.random.default_rng(case["s"])
     events = []
     cnt = {"prep_calls": 0, "mf_energy_checks": 0, "fci_checks": 0, "cc_checks": 0, "skipped_unconverged": 0}
-    mol, mf, integrals = case.pop("_prebuilt") if "_prebuilt" in case else _build_mf(case, rng)
+    try:
+        mol, mf, integrals = case.pop("_prebuilt") if "_prebuilt" in case else _build_mf(case, rng)
+    except Exception as exc:   # pyscf itself failed to produce the mean-field object (not the code under test)
+        cnt["skipped_unconverged"] = 1
+        return {"events": [ev("scf/pyscf-failed", None, key="C16/skip-pyscf-failed", exc=repr(exc)[:200])], "nontrivial": False, "counters": cnt}
     if not mf.converged:
         cnt["skipped_unconverged"] = 1
         return {"events": [ev("scf/not-converged", None, key="C16/skip-scf")], "nontrivial": False, "counters": cnt}
@@ -240,7 +246,7 @@ def run_case(case):
             sample.update({"e_estimate": e_est, "e_mf": float(mf.e_tot)})
             ladder.append(abs(e_est - mf.e_tot))
         # exact ground state of the written Hamiltonian vs pyscf's FCI / CASCI of the molecule
-        if case.get("fci") and chol_cut == chol_cuts[-1] and nmo <= 11:
+        if case.get("fci") and not case.get("df") and chol_cut == chol_cuts[-1] and nmo <= 11:
             na_w = (nelec_w + abs(ms)) // 2
             nb_w = (nelec_w - abs(ms)) // 2
             eri = np.einsum("gpq,grs->pqrs", chol, chol)
